@@ -1,4 +1,5 @@
 import PandoraModel.Properties.C16
+import PandoraModel.Properties.C16Kernels
 open Pandora.C16
 #print axioms getWindow_eq_spec
 #print axioms windowSpec_inside
@@ -27,3 +28,9 @@ open Pandora.C16
 #print axioms fixed_getWindow
 #print axioms fixed_read_spec
 #print axioms fixed_roi_spec
+-- get_window regenerated from the Python source by translator/pyexpr.py (Properties/C16Kernels.lean)
+#print axioms Pandora.C16Kernels.getWindow_eq_fixed
+#print axioms Pandora.C16Kernels.getWindow_eq_source
+#print axioms Pandora.C16Kernels.getWindow_raises_iff
+#print axioms Pandora.C16Kernels.encWindow_spec
+#print axioms Pandora.C16Kernels.getWindow_eq_spec
